@@ -8,30 +8,51 @@ from rules.common import RuleProxy
 
 # property -> [(module, rule function, why it is necessary for this property)]
 CROSS = {
-    "C01": [("C10", "R3_search_siblings", "a swap that skips an initialised tick trades against liquidity that is not there"),
+    "C01": [("C17", "R3_equality_guard", "a two-hop whose legs disagree about the intermediate amount pays out what the second pool never received"),
+            ("C06", "R3_booking_side", "fees booked on the side nobody paid are fees the vault cannot pay"),
+            ("C10", "R3_search_siblings", "a swap that skips an initialised tick trades against liquidity that is not there"),
             ("C05", "R2_one_delta", "tick updates seeded with the wrong side's growth credit fees nobody paid"),
             ("C15", "R4_loaders_and_unchecked", "a tick array of another pool lets one pool's liquidity be counted in another"),
             ("xfer", "R_cpi_builders", "deposits must arrive in the vault and only pool-signed outflows may leave it, for the amount computed")],
-    "C03": [("C16", "R5_tlv_reader", "the fee schedule of the current epoch decides what the trader pays and receives")],
-    "C05": [("C13", "R4_size_and_rent", "a dynamic array that shrinks while a tick stays initialised loses that tick's net / gross"),
+    "C03": [("C16", "R4_helpers", "the limits are compared with amounts net of the Token-2022 transfer fee, which is rounded up"),
+            ("C06", "R4_swap_transfers", "what is compared with the limit must be what is transferred"),
+            ("C16", "R5_tlv_reader", "the fee schedule of the current epoch decides what the trader pays and receives")],
+    "C05": [("C13", "R2_shift_bitmap_pairing", "a de-initialised dynamic slot that keeps a stray flag is a tick with garbage net / gross"),
+            ("C10", "R3_search_siblings", "a tick the search skips is never crossed and its net never applied"),
+            ("C15", "R5_pinocchio_superset", "a position of another pool adds liquidity to ticks of a pool it does not belong to"),
+            ("C13", "R4_size_and_rent", "a dynamic array that shrinks while a tick stays initialised loses that tick's net / gross"),
             ("C13", "R5_shared_checks", "a tick booked into the wrong slot is liquidity at the wrong price"),
             ("C12", "R3_accessors", "a partial tick update leaves stale net / gross behind")],
-    "C07": [("C10", "R5_loop_cursor", "a cursor moved without a crossing leaves fee_growth_outside flipped"),
+    "C07": [("C15", "R3_back_references", "a position settled against another pool's growth is credited fees its pool never collected"),
+            ("C10", "R5_loop_cursor", "a cursor moved without a crossing leaves fee_growth_outside flipped"),
             ("C06", "R3_booking_side", "fee growth booked on the wrong token is credited in the wrong token")],
-    "C08": [("C02", "R5_exact_remainders", "deposits are rounded up through the same remainder tests")],
+    "C08": [("C16", "R3_reposition_info", "the caller's maxima bound what a reposition may take, whichever way the net transfer goes"),
+            ("C02", "R5_exact_remainders", "deposits are rounded up through the same remainder tests")],
     "C09": [("C08", "R1_case_split", "every price a position is valued at comes from the one tick-to-price function")],
-    "C10": [("C13", "R5_shared_checks", "fixed and dynamic arrays must refuse the same lookups")],
-    "C11": [("C12", "R3_accessors", "the Pinocchio write-back of reward growth and its timestamp"),
+    "C10": [("C13", "R5_shared_checks", "fixed and dynamic arrays must refuse the same lookups"),
+            ("C05", "R5_crossing", "an initialised tick the swap reaches is crossed, whatever else the step did")],
+    "C11": [("C18", "R1_range_fields", "re-ranging a position must keep what it is owed"),
+            ("C15", "R3_back_references", "a position of another pool has no share in this pool's rewards"),
+            ("C12", "R3_accessors", "the Pinocchio write-back of reward growth and its timestamp"),
             ("C16", "R1_swap_wiring", "the v2 wrapper must hand on the accrued reward infos")],
     "C12": [("C13", "R5_shared_checks", "the Pinocchio lookup must serve exactly the ticks the Anchor one serves")],
     "C13": [("C12", "R3_accessors", "a de-initialised fixed slot must be cleared as a dynamic one is")],
-    "C14": [("C16", "R1_swap_wiring", "the v2 wrapper must hand on the updated adaptive-fee variables"),
+    "C02": [("C06", "R8_widths", "a truncated amount is not rounded in the pool's favour, it is dropped")],
+    "C14": [("C06", "R1_step_fee", "the fee charged is the scheduled total rate, not a clamped one"),
+            ("C15", "R3_back_references", "the oracle is the pool's own: another account in its place switches the adaptive fee off"),
+            ("C06", "R8_widths", "total rates of adaptive-fee pools exceed u16 and must reach the step computation whole"),
+            ("C16", "R1_swap_wiring", "the v2 wrapper must hand on the updated adaptive-fee variables"),
             ("C20", "R4_fee_manager_ports", "program and SDK fee managers are each other's reference")],
-    "C16": [("xfer", "R_cpi_builders", "checked transfers carry the mint, its decimals and - iff it has a hook - the hook accounts"),
+    "C16": [("C03", "R1_threshold_table", "the trader's limit is compared with the amount net of transfer fees"),
+            ("xfer", "R_cpi_builders", "checked transfers carry the mint, its decimals and - iff it has a hook - the hook accounts"),
             ("events", "R_events", "the amounts and transfer fees reported are those of the same token side")],
-    "C17": [("C14", "R4_gates", "a leg that could not trade on its own must stop the two-hop"),
+    "C17": [("C15", "R3_back_references", "each leg's oracle is that leg's pool's own"),
+            ("C03", "R1_threshold_table", "the two-hop's limit is compared with the last leg's output / the first leg's input"),
+            ("C14", "R4_gates", "a leg that could not trade on its own must stop the two-hop"),
             ("C15", "R1_token_accounts", "each leg's vaults are the vaults of that leg's pool")],
-    "C18": [("C15", "R3_back_references", "a position is re-ranged against its own pool only")],
+    "C18": [("C04", "R4b_token_account_loader", "the frozen token account of a locked position is still a valid token account"),
+            ("C15", "R3_back_references", "a position is re-ranged against its own pool only")],
+    "C15": [("C04", "R4b_token_account_loader", "token accounts are accepted from the two token programs only, compared in full")],
 }
 NEEDS_SDK = {p for p, lst in CROSS.items() if any(m == "C20" for m, _, _ in lst)}
 
